@@ -1,9 +1,12 @@
 package sim
 
 import (
+	"strconv"
 	"strings"
 	"time"
 )
+
+func itoa(i int) string { return strconv.Itoa(i) }
 
 // simEpochNs: unix nanoseconds of the simulated clock when a run starts
 // (bubble start 2000-01-01 plus the 10000 days the engine sleeps first).
@@ -73,6 +76,71 @@ func genSeqPlan(prop string, seed uint64, thorough bool) *Plan {
 			x -= f.w
 		}
 		return fams[0].name
+	}
+	if seed%10 == 9 && (prop == "C04" || prop == "C05" || prop == "C06") {
+		// class churn: one big collection (hash fields / set members / keys) is
+		// built, mostly removed and then churned, so that the emulator's
+		// one-item-per-bucket table grows and halves several times; the state
+		// comparison after every command notices a lost or phantom item at once
+		p.Class = "churn"
+		p.Knobs.MaxSteps = 400000
+		wrap = false
+		name := func(i int) string { return "e" + itoa(i) }
+		mk := func(from, to int, del bool) []string {
+			var a []string
+			switch prop {
+			case "C04":
+				a = []string{"HSET", "big"}
+				if del {
+					a = []string{"HDEL", "big"}
+				}
+			case "C05":
+				a = []string{"SADD", "big"}
+				if del {
+					a = []string{"SREM", "big"}
+				}
+			default:
+				a = []string{"MSET"}
+				if del {
+					a = []string{"DEL"}
+				}
+			}
+			for j := from; j < to; j++ {
+				a = append(a, name(j))
+				if !del && prop != "C05" {
+					a = append(a, "v"+itoa(j))
+				}
+			}
+			return a
+		}
+		read := func() []string {
+			switch prop {
+			case "C04":
+				return [][]string{{"HLEN", "big"}, {"HKEYS", "big"}, {"HGETALL", "big"}, {"HEXISTS", "big", name(g.r.IntN(8))}, {"HVALS", "big"}}[g.r.IntN(5)]
+			case "C05":
+				return [][]string{{"SCARD", "big"}, {"SMEMBERS", "big"}, {"SISMEMBER", "big", name(g.r.IntN(8))}}[g.r.IntN(3)]
+			}
+			return [][]string{{"DBSIZE"}, {"KEYS", "*"}, {"EXISTS", name(g.r.IntN(8))}, {"RANDOMKEY"}}[g.r.IntN(4)]
+		}
+		keep := 3 + g.r.IntN(8)
+		size := keep + []int{10, 20, 40}[g.r.IntN(3)]
+		for i := 0; i < size; i += 20 {
+			add(mk(i, min(i+20, size), false))
+		}
+		add(read())
+		for i := keep; i < size; i += 20 {
+			add(mk(i, min(i+20, size), true))
+		}
+		cycles := 150 + g.r.IntN(500)
+		for i := 0; i < cycles; i++ {
+			add(mk(size, size+2, false))
+			add(mk(size, size+2, true))
+			if g.chance(25) {
+				add(read())
+			}
+		}
+		add(read())
+		n = 5 + g.r.IntN(10)
 	}
 	for i := 0; i < n; i++ {
 		// state-shaping prefix
